@@ -474,6 +474,8 @@ func RenderFromAST(ast *MJMLNode, opts ...RenderOption) (string, error) {
 		}
 	}
 
+	applyGlobalAttributesFromAST(ast)
+
 	component, err := CreateComponent(ast, renderOpts)
 	if err != nil {
 		return "", err
@@ -499,7 +501,23 @@ func NewFromAST(ast *MJMLNode, opts ...RenderOption) (Component, error) {
 		opt(renderOpts)
 	}
 
+	applyGlobalAttributesFromAST(ast)
+
 	return CreateComponent(ast, renderOpts)
+}
+
+// applyGlobalAttributesFromAST installs the mj-attributes definitions of the given
+// document so that components created from it resolve their own defaults rather
+// than those of whichever document was rendered before.
+func applyGlobalAttributesFromAST(ast *MJMLNode) *globals.GlobalAttributes {
+	globalAttrs := globals.NewGlobalAttributes()
+	if ast != nil {
+		if headNode := ast.FindFirstChild("mj-head"); headNode != nil {
+			globalAttrs.ProcessAttributesFromHead(headNode)
+		}
+	}
+	globals.SetGlobalAttributes(globalAttrs)
+	return globalAttrs
 }
 
 // normalizeGroupColumnClassOrder rewrites the mj-group column class ordering to match
